@@ -38,7 +38,7 @@ prop("C29",
 
 
 prop("C22",
-     units=["colcodec", "refarms"],
+     units=["colcodec", "refarms", "quoting"],
      level="proof",
      claim="number_to_column / column_to_number are mutually inverse bijections between [1,16384] and the letter strings A..XFD (first sentence of the statement)",
      assumptions=["units/std_str.rs: char::is_ascii_uppercase, String::insert behave as documented", "vstd's model of str::chars / String views"],
@@ -53,7 +53,7 @@ prop("C11",
 
 
 prop("C03",
-     units=["queue", "arms", "record"],
+     units=["queue", "arms", "record", "cutcf"],
      scans=["history-writers"],
      level="proof",
      claim="protocol part: the queue holds exactly the (tag, list) pairs in the order the sender applied them; flush returns enc(queue) and empties it; "
